@@ -237,6 +237,21 @@ def rule_defs(ctx, R):
                             guards.append((gb, sx))
             ok2 = bool(guards) and not reaches_without(cfg, [M.head], db, cut_edges=guards)
             R.check(ok2, "parse:dot:state0", "dots are counted only before the area part began (parser state 0)", s["span"]["at"])
+    # syllable counting: inside the syllable part every Hangul syllable adds exactly one
+    for (db, di) in vars_.def_sites(M.hangul):
+        if di == "t" or db not in M.loop or (db, di) == M.start:
+            continue
+        s_ = b.blocks[db]["stmts"][di]
+        r_ = roles.of_origin(org.of_rvalue(s_["r"], db, di))
+        guards_ = []
+        for gb in M.loop:
+            tt = b.blocks[gb]["term"]
+            if tt["k"] == "switch":
+                for sx in cfg.succ[gb]:
+                    lab = ev.generic_edge(gb, tt, sx)
+                    if lab and lab.startswith("BR[parse::is_hangul_syllable(") and lab.endswith("=1"):
+                        guards_.append((gb, sx))
+        R.check(r_.endswith(" Add K1)") and "LOOPVAR" in r_ and bool(guards_) and not reaches_without(cfg, [M.head], db, cut_edges=guards_), "parse:syllables:step", "the syllable count grows by exactly one, and only for a Hangul syllable: %s" % r_[:80], s_["span"]["at"])
     # which constant goes with '.'
     for bi in M.loop:
         for si, s in enumerate(b.blocks[bi]["stmts"]):
